@@ -68,8 +68,15 @@ def instance(cfg, need_p=False, with_k=None):
     def make(rng):
         nn = int(rng.integers(1, 6))
         pp = int(rng.integers(1 if need_p else 0, 4))
-        env = {n: nn, p: pp, 'M': rng.uniform(0.5, 3.0, nn), 'O': rng.uniform(0.3, 3.0, nn),
-               'Sens': rng.normal(size=(nn, pp)), TH[0]: float(rng.uniform(0.2, 2.0)), TH[1]: float(rng.uniform(0.2, 2.0))}
+        th0, th1 = float(rng.uniform(0.2, 2.0)), float(rng.uniform(0.2, 2.0))
+        m_ = rng.uniform(0.5, 3.0, nn)
+        if not cfg['log']:
+            # model outputs of either sign wherever the precondition (per-observation standard deviation > 0) allows them
+            cand = rng.uniform(-2.0, 3.0, nn)
+            sd_ = np.array([float(cfg['sd'](c_, [th0, th1])) for c_ in cand])
+            m_ = np.where(sd_ > 0.15, cand, m_)
+        env = {n: nn, p: pp, 'M': m_, 'O': rng.uniform(0.3, 3.0, nn) if cfg['log'] else rng.uniform(-1.0, 3.0, nn),
+               'Sens': rng.normal(size=(nn, pp)), TH[0]: th0, TH[1]: th1}
         if with_k == 'n':
             env[k] = int(rng.integers(0, nn))
         if with_k == 'p':
@@ -258,6 +265,20 @@ def runtime_contract(rec, cls):
         for _ in range(n_cases):
             yield ('inside', jsonable(Env(instance(cfg, need_p=True)(rng))))
 
+    def long_cases():
+        # long observation vectors with large / small outputs: the documented value is a *sum* of log-densities, which stays finite where a
+        # product of the standard deviations would overflow or underflow (IEEE range; real arithmetic cannot see this)
+        for scale in (2.0e3, 2.0e-3, 1.0):
+            nn = 400
+            env = Env(instance(cfg, need_p=True)(rng))
+            env[n] = nn
+            env['M'] = scale * rng.uniform(0.5, 2.0, nn)
+            env['O'] = env['M'] * rng.uniform(0.9, 1.1, nn)
+            env['Sens'] = rng.normal(size=(nn, int(env[p])))
+            env[TH[0]] = 0.15 if cls != 'GaussianErrorModel' else 0.15 * scale
+            env[TH[1]] = 0.2
+            yield ('long', jsonable(env))
+
     def support_cases():
         for t_bad in range(cfg['nth']):
             for val in (0.0, -0.7):
@@ -294,6 +315,18 @@ def runtime_contract(rec, cls):
             if not (ll == -np.inf and sc == -np.inf and np.all(np.asarray(pw) == -np.inf)):
                 return 'outside the support: value %r, pointwise %r, score %r (expected -inf)' % (ll, np.asarray(pw).tolist(), sc)
             return None
+        if kind == 'long':
+            # numpy reference in log space (the documented sum of log-densities)
+            m_, o_ = np.asarray(env['M'], dtype=float), np.asarray(env['O'], dtype=float)
+            if cfg['log']:
+                mu_ = np.log(m_) - thv[0] ** 2 / 2
+                want = float(np.sum(-np.log(o_) - np.log(thv[0]) - 0.5 * np.log(2 * np.pi) - (np.log(o_) - mu_) ** 2 / (2 * thv[0] ** 2)))
+            else:
+                sd_ = np.array([float(cfg['sd'](x_, thv)) for x_ in m_])
+                want = float(np.sum(-np.log(sd_) - 0.5 * np.log(2 * np.pi) - (o_ - m_) ** 2 / (2 * sd_ ** 2)))
+            if not (evalx.close(float(ll), want, 1e-7, 1e-7) and evalx.close(float(sc), want, 1e-7, 1e-7) and evalx.close(float(np.sum(pw)), want, 1e-7, 1e-7)):
+                return '%d observations of magnitude %.0e: value %r / score %r / pointwise sum %r, the documented sum of log-densities is %r' % (len(m_), float(np.median(m_)), ll, sc, float(np.sum(pw)), want)
+            return None
         want = evalx.ev(spec_ll, env)
         if not evalx.close(float(ll), want, 1e-7, 1e-9) or not evalx.close(float(sc), want, 1e-7, 1e-9):
             return 'value %r / score %r differ from the documented log-density %r' % (ll, sc, want)
@@ -311,9 +344,9 @@ def runtime_contract(rec, cls):
             if not evalx.close(float(gr[int(env[p]) + t_]), w_, 1e-6, 1e-8):
                 return 'sensitivity w.r.t. error parameter %d is %r, expected %r' % (t_, float(gr[int(env[p]) + t_]), w_)
         return None
-    rec.native_check('%s/runtime-contract' % cls, funcs, list(formula_cases()) + list(support_cases()), one,
+    rec.native_check('%s/runtime-contract' % cls, funcs, list(formula_cases()) + list(long_cases()) + list(support_cases()), one,
                      'seeded instances inside the support (n in 1..5, p in 1..3, random values) compared with the numerically evaluated '
-                     'specification and its derivative; boundary instances of the support clause (each scale parameter 0 and negative; '
+                     'specification and its derivative; vectors of 400 observations with outputs of magnitude 1e3 / 1e-3 / 1 (IEEE range); boundary instances of the support clause (each scale parameter 0 and negative; '
                      'log-normal: negative/zero outputs at first/last/all/middle positions); distinct by full input')
 
 
